@@ -10,6 +10,7 @@ import inspect
 import operator
 import textwrap
 import types
+import time
 import functools
 
 import z3
@@ -732,6 +733,12 @@ class Frame:
                     raise LoopBound()
             elif total > getattr(self.I.ctx, "concrete_loop_bound", 1000000):
                 raise LoopBound()
+            if total % 256 == 0:
+                dl = getattr(self.I.ctx, "deadline", None)
+                if dl is not None and time.time() > dl + 30:
+                    # this one path has been running past the exploration budget of its case: the loop does not come
+                    # to an end within it
+                    raise LoopBound()
             try:
                 self.exec_block(s.body)
             except _Break:
